@@ -215,6 +215,52 @@ func t1ScenarioK(withVerify, history, usedKey bool) func() instance {
 	}
 }
 
+// t1ManyScenario: one Evaluate is in flight while eight more are served by two other goroutines
+// (four each): more calls than any small fixed pool of per-call resources has entries.
+func t1ManyScenario() instance {
+	kb := px.OPRFKeyBytes(oprf.SuiteP384, 0)
+	ref := px.NewW1FromBytes(kb)
+	chal := fill("chal", 32)
+	const n = 9
+	sts := make([]type1.BasicPrivateTokenRequestState, n)
+	reqs := make([]*type1.BasicPrivateTokenRequest, n)
+	for i := 0; i < n; i++ {
+		st, err := ref.Create(chal, fill(fmt.Sprintf("many-n%d", i), 32), nil)
+		must(err)
+		sts[i] = st
+		reqs[i] = new(type1.BasicPrivateTokenRequest)
+		reqs[i].Unmarshal(append([]byte{}, st.Request().Marshal()...))
+	}
+	iss := type1.NewBasicPrivateIssuer(px.OPRFKeyFromBytes(oprf.SuiteP384, kb))
+	resp := make([][]byte, n)
+	errs := make([]error, n)
+	run := func(idx ...int) func() {
+		return func() {
+			for _, i := range idx {
+				resp[i], errs[i] = iss.Evaluate(reqs[i])
+			}
+		}
+	}
+	in := instance{}
+	in.bodies = []func(){run(0), run(1, 2, 3, 4), run(5, 6, 7, 8)}
+	in.check = func() (string, error) {
+		for i := 0; i < n; i++ {
+			if errs[i] != nil {
+				return "", fmt.Errorf("Evaluate %d failed: %v", i, errs[i])
+			}
+			t, err := sts[i].FinalizeToken(resp[i])
+			if err != nil {
+				return "", fmt.Errorf("response %d of nine overlapping Evaluate calls does not finalize: %v", i, err)
+			}
+			if err := px.VerifyOPRFToken(oprf.SuiteP384, kb, t.Marshal()); err != nil {
+				return "", fmt.Errorf("token %d of nine overlapping Evaluate calls is invalid: %v", i, err)
+			}
+		}
+		return "ok", nil
+	}
+	return in
+}
+
 func t5Scenario(withVerify bool) func() instance { return t5ScenarioH(withVerify, false) }
 
 func t5ScenarioH(withVerify, history bool) func() instance {
@@ -1173,6 +1219,7 @@ var scenarios = []scenario{
 	{"type2-evaluate-evaluate-tokenkeyid-on-an-issuer-with-a-history", t2ScenarioHist},
 	{"ecdsa-two-blinding-keys-two-contexts", ecdsaScenario(2)},
 	{"ecdsa-sign-on-three-curves", ecdsaCurvesScenario},
+	{"type1-one-evaluate-in-flight-while-eight-more-are-served", t1ManyScenario},
 	{"type3-evaluate-registered-origin-and-two-other-spellings", t3SpellingsScenario},
 	{"ed25519-one-blinding-key-shared-by-three-calls", ed25519Scenario(4)},
 	{"type2-evaluate-evaluate-tokenkeyid-key-assembled-from-numbers", t2ScenarioRaw},
